@@ -92,6 +92,11 @@ pub trait Workload: Sync {
     fn execute(&self, case: &Self::Case, ctx: &mut Ctx) -> Result<Outcome, HarnessError>;
     /// structurally smaller candidate cases, most aggressive first
     fn shrink(&self, case: &Self::Case) -> Vec<Self::Case>;
+    /// after structural shrinking: workload-specific refinement that may execute cases (e.g.
+    /// schedule minimisation); must return a case that still fails with `signature`
+    fn refine(&self, case: &Self::Case, _signature: &str) -> Self::Case {
+        case.clone()
+    }
     /// what makes two cases "the same" for distinct_nontrivial (default: the whole case)
     fn case_key(&self, case: &Self::Case) -> u64 {
         fnv_str(&serde_json::to_string(case).unwrap_or_default())
@@ -413,6 +418,7 @@ pub fn minimise<W: Workload>(w: &W, case: &W::Case, signature: &str) -> (W::Case
         }
         break;
     }
+    let cur = w.refine(&cur, signature);
     (cur, execs)
 }
 
